@@ -171,7 +171,10 @@ func transformLinkReferenceSpan(source []byte, nodes []*Inline, span Span) strin
 			}
 		}
 	}
-	return cases.Fold().String(strings.TrimSpace(sb.String()))
+	// Leading and trailing spaces, tabs, and line endings
+	// have been collapsed into a single space by now.
+	// (Other Unicode whitespace, like a no-break space, is part of the label.)
+	return cases.Fold().String(strings.Trim(sb.String(), " "))
 }
 
 // ChildCount returns the number of children the node has.
